@@ -175,19 +175,24 @@ def special_next(ip, st, it, cell, default):
         # islice(itertools.count(0), start, stop, step): next member of the progression, or StopIteration at / after stop
         has = OR(NOT(cell.has_stop), CMP("<", cell.nextval, cell.stop))
         outs = []
-        ex = st.fork(NOT(has), "E.")
-        if default is not None:
-            outs.append((ex, default))
-        elif ip.may_catch(ex, "StopIteration"):
-            ip.raise_(ex, "StopIteration")
-        else:
-            ip.emit("safety", "next-on-nonempty", ex, FALSE)
+        if has.s != "true":          # (itertools.count without islice never ends: no exhausted outcome)
+            ex = st.fork(NOT(has), "E.")
+            if default is not None:
+                outs.append((ex, default))
+            elif ip.may_catch(ex, "StopIteration"):
+                ip.raise_(ex, "StopIteration")
+            else:
+                ip.emit("safety", "next-on-nonempty", ex, FALSE)
         ok = st.fork(has, "V.")
-        ok.heap[it.cid] = copy_special(cell, nextval=ADD(cell.nextval, I(cell.step)))
+        # (step: a python int for the `Arith[...]` field type, a term for itertools.count(start, step) -- lib_flow)
+        ok.heap[it.cid] = copy_special(cell, nextval=ADD(cell.nextval, cell.step if hasattr(cell.step, "s") else I(cell.step)))
         outs.append((ok, Num(cell.nextval)))
         ip.assumptions.add("library contract (tier A): islice(itertools.count(0), start, stop, step) delivers start, "
                            "start+step, ... below stop")
         return outs
+    if cell.kind == "islice":
+        from .lib_flow import islice_next          # itertools.islice(it, start, stop, step)
+        return islice_next(ip, st, it, cell, default)
     raise U("special iterator " + str(cell.kind))
 
 
@@ -197,9 +202,15 @@ def lib_deepcopy(ip, st, pos, kws):
     from .sym import ValCell, LstCell, PyListCell, Tup, Opaque
     v = pos[0]
     ip.assumptions.add("library contract (tier A): copy.deepcopy returns an equal value sharing no mutable object with its argument")
+    n0 = getattr(ip, "n_cells", 0)
     r = _deep(ip, st, v, deep=True)
     if isinstance(r, Ref):
         st.notes["deep_copies"] = set(st.notes.get("deep_copies", ())) | {r.cid}
+    elif isinstance(r, Tup):
+        # deep copy of a tuple (a (data, context) pair): the mutable objects inside the new tuple are the copies -- every
+        # object created by this call shares nothing with what existed before
+        new = {"c%d" % k for k in range(n0 + 1, getattr(ip, "n_cells", 0) + 1)}
+        st.notes["deep_copies"] = set(st.notes.get("deep_copies", ())) | {c for c in new if c in st.heap}
     return [(st, r)]
 
 
@@ -220,6 +231,12 @@ def _deep(ip, st, v, deep=False):
         return ip.new_cell(st, ValCell(v.t))
     if isinstance(v, Tup):
         return Tup([_deep(ip, st, x, deep) for x in v.items])
+    if isinstance(v, Opaque) and v.sort == "V" and ip.c is not None and ip.c.ghost.get("v_copy_distinct"):
+        # Contract(ghost={"v_copy_distinct": True}): copy.deepcopy of an abstract flow value is not known to be the same
+        # object (`is` and `==` of V terms coincide in the encoding, so nothing is known about the copy but that it is a
+        # function of the original); without the flag the copy is identified with the original (value semantics)
+        f = ip.reg.ufun("deepcopy_V" if deep else "copy_V", ["V"], "V")
+        return Opaque(T("(%s %s)" % (f, v.t.s), "V"))
     if deep and isinstance(v, Opaque) and v.sort == "Obj":
         # copy.deepcopy of an abstract element: a NEW object (ghost allocation clock, see histlib)
         from .histlib import alloc_copy
@@ -244,6 +261,8 @@ def lib_islice(ip, st, pos, kws):
 
 
 def lib_path_exists(ip, st, pos, kws):
+    if pos and isinstance(pos[0], Opaque) and pos[0].sort == "V":
+        pos = [Opaque(path_key(ip, st, pos[0], "os.path.exists"))] + list(pos[1:])      # a flow value used as a file name
     return lib_os_access(ip, st, pos, kws)
 
 
@@ -253,7 +272,8 @@ def lib_noop_none(ip, st, pos, kws):
 
 def lib_dirname(ip, st, pos, kws):
     f = ip.reg.ufun("path_dirname", ["Key"], "Key")
-    return [(st, Opaque(T("(%s %s)" % (f, ip.key_term(pos[0]).s), "Key")))]
+    k = path_key(ip, st, pos[0], "os.path.dirname") if isinstance(pos[0], Opaque) and pos[0].sort == "V" else ip.key_term(pos[0])
+    return [(st, Opaque(T("(%s %s)" % (f, k.s), "Key")))]
 
 
 # ---- strings as paths.  os.path is posixpath (DESIGN: the checks run on Linux): os.sep == "/" and isabs(p) is
@@ -277,7 +297,82 @@ def str_operand(ip, st, v, what):
 
 def key_startswith(ip, k, prefix):
     f = ip.reg.ufun("kstartswith", ["Key", "Key"], "Bool")
+    ax = "(not (%s %s %s))" % (f, ip.reg.key("").s, ip.reg.key("/").s)          # "".startswith("/") is False
+    if not any(a.s == ax for a in ip.reg.axioms):
+        ip.reg.axioms.append(T(ax, "Bool"))
     return T("(%s %s %s)" % (f, k.s, prefix.s), "Bool")
+
+
+def path_key(ip, st, v, what):
+    """a value used as a file name: strings as they are (context items: obligation, see str_operand); a flow value of the
+    abstract sort V is the string v_path(v) (the TypeError of a data part that is no string is not modelled)"""
+    if isinstance(v, Opaque) and v.sort == "V":
+        ip.reg.need_val()
+        f = ip.reg.ufun("v_path", ["V"], "Key")
+        ip.assumptions.add("flow values used as file names are strings: v_path(v)")
+        return T("(%s %s)" % (f, v.t.s), "Key")
+    return ip.key_term(str_operand(ip, st, v, what))
+
+
+def mtime_term(ip, fs, k):
+    lv = need_fs(ip.reg)
+    f = ip.reg.ufun("fs_mtime", [FS_SORT, "Key"], "Real")
+    return T("(%s %s %s)" % (f, fs.s, k.s), "Real")
+
+
+def lib_getmtime(ip, st, pos, kws):
+    """os.path.getmtime(p): OSError when p does not exist, else a number that depends on the file system and p"""
+    need_fs(ip.reg)
+    k = path_key(ip, st, pos[0], "os.path.getmtime")
+    ent = T("(select %s %s)" % (fs_get(ip, st).s, k.s), "FOpt")
+    os_error(ip, st, EQ(ent, T("fnone", "FOpt")), "nofile.")
+    return [(st, Num(mtime_term(ip, fs_get(ip, st), k)))]
+
+
+def kcat_facts(ip, st, r, a, b, ta, tb):
+    """facts of r = a + b (python strings) that contracts over file names need (Contract.ghost = {"paths": True}):
+    "" is neutral; r is empty only if both parts are; a non-empty first part decides whether r starts with "/" """
+    from .sym import Str
+    e, sl = ip.reg.key(""), ip.reg.key("/")
+    sw = lambda k: key_startswith(ip, k, sl)
+    st.assume(IMP_(EQ(ta, e), EQ(r, tb)))
+    st.assume(IMP_(EQ(tb, e), EQ(r, ta)))
+    st.assume(IMP_(EQ(r, e), AND(EQ(ta, e), EQ(tb, e))))
+    st.assume(IMP_(NOT(EQ(ta, e)), EQ(sw(r), sw(ta))))
+    for x, t in ((a, ta), (b, tb)):
+        if isinstance(x, Str):
+            st.assume(sw(t) if x.s.startswith("/") else NOT(sw(t)))
+    m = _KCAT2.match(tb.s)
+    if m:
+        # a + (x + y) == (a + x) + y: the instance of associativity for the term just built
+        x, y = _split2(tb.s[len("(kcat "):-1])
+        if x is not None:
+            st.assume(EQ(r, T("(kcat (kcat %s %s) %s)" % (ta.s, x, y), "Key")))
+
+
+import re as _re
+_KCAT2 = _re.compile(r"^\(kcat .*\)$")
+
+
+def _split2(text):
+    """the two arguments of an application, given the text between `(f ` and `)` (|quoted symbols| and nesting respected)"""
+    depth, quoted = 0, False
+    for i, ch in enumerate(text):
+        if ch == "|":
+            quoted = not quoted
+        elif quoted:
+            continue
+        elif ch == "(":
+            depth += 1
+        elif ch == ")":
+            depth -= 1
+        elif ch == " " and depth == 0:
+            return text[:i], text[i + 1:]
+    return None, None
+
+
+def IMP_(a, b):
+    return OR(NOT(a), b)
 
 
 def lib_isabs(ip, st, pos, kws):
@@ -342,7 +437,8 @@ def file_method(ip, st, f, name, pos):
 
 
 LIB = {("os.path", "exists"): lib_path_exists, ("os.path", "dirname"): lib_dirname, ("os", "makedirs"): lib_noop_none,
-       ("os.path", "isabs"): lib_isabs, ("os.path", "join"): lib_path_join,
+       ("os.path", "isabs"): lib_isabs, ("os.path", "join"): lib_path_join, ("os.path", "getmtime"): lib_getmtime,
+       ("os", "error"): __import__("pyvc.sym", fromlist=["Fun"]).Fun("exc", name="OSError"),      # os.error is OSError
        ("os", "sep"): __import__("pyvc.sym", fromlist=["Str"]).Str("/"),          # a constant, not a function (posix)
        ("itertools", "islice"): lib_islice, ("copy", "deepcopy"): lib_deepcopy, "deepcopy": lib_deepcopy,
        ("copy", "copy"): lambda ip, st, pos, kws: [(st, _deep(ip, st, pos[0]))],        # a new top-level object, NOT a deep copy
@@ -469,4 +565,8 @@ def register(ix):
     ix.lib.update(LIB)
     from . import lib_acc          # decimal, itertools.zip_longest (accumulators)
     lib_acc.register(ix)
+    from . import lib_flow         # itertools.count / general islice, collections.deque (flow elements)
+    lib_flow.register(ix)
+    from . import lib_run          # itertools.chain, abstract run elements that consume their input (opt-in)
+    lib_run.register(ix)
 
